@@ -3,17 +3,19 @@
 # confirmed seeded change (after the check was strengthened) and rewrites the check lines of its
 # confirm.log, keeping a note of the earlier miss.
 set -u
+# SHADOW=1: run the check part against the shadow copy (tools/shadow.sh make) instead of /repo itself
+if [ "${SHADOW:-0}" = 1 ]; then CHECK_REPO=/tmp/shadow/repo; CHECK_VERIF=/tmp/shadow/verif; else CHECK_REPO=/repo; CHECK_VERIF=/verif; fi
 ID="$1"; NAME="$2"; OUT="/verif/seeded/$NAME"
 [ -f "$OUT/patch.diff" ] || { echo "no such seed"; exit 2; }
-if [ -n "$(git -C /repo status --porcelain)" ]; then echo "/repo not clean, refusing"; exit 2; fi
+if [ -n "$(git -C $CHECK_REPO status --porcelain)" ]; then echo "/repo not clean, refusing"; exit 2; fi
 old=$(grep -E "^check $ID quick against the change" "$OUT/confirm.log" | head -1 | cut -c1-60)
 grep -vE "^check |^VIOLATION|^reverted|^before strengthening" "$OUT/confirm.log" > "$OUT/confirm.log.new"; mv "$OUT/confirm.log.new" "$OUT/confirm.log"
 res() { echo "$1" | tee -a "$OUT/confirm.log"; }
 case "$old" in *"exit 0"*) res "before strengthening: $old (missed)";; esac
-git -C /repo apply "$OUT/patch.diff" || { res "patch does not apply to /repo"; exit 1; }
-cd /verif
-./run.sh check "$ID" quick > "$OUT/check-quick.log" 2>&1; rc=$?
+git -C $CHECK_REPO apply "$OUT/patch.diff" || { res "patch does not apply to /repo"; exit 1; }
+cd $CHECK_VERIF
+(cd $CHECK_VERIF && ./run.sh check "$ID" quick) > "$OUT/check-quick.log" 2>&1; rc=$?
 res "check $ID quick against the change: exit $rc; $(grep -c '^VIOLATION' "$OUT/check-quick.log") VIOLATION lines; $(grep '^SUMMARY' "$OUT/check-quick.log" | cut -c1-200)"
 grep '^VIOLATION' "$OUT/check-quick.log" | cut -c1-300 | head -5 >> "$OUT/confirm.log"
-git -C /repo checkout -- .
-res "reverted: $(git -C /repo status --porcelain | wc -l) dirty files"
+git -C $CHECK_REPO checkout -- .
+res "reverted: $(git -C $CHECK_REPO status --porcelain | wc -l) dirty files"
